@@ -41,9 +41,20 @@ its narrower type outside the **open** class `ShrBelowRange`, refuted by `shr_co
 `shift_constant_number_exact` (constant counts on a static_number move the exponent), `shiftAssign_is_history`
 (`<<=`, `>>=`), and the shift nodes of the histories; the as-found left-shift test of the repaired finding
 `C11.shl_to_minus_two_pow_digits_not_flagged` is refuted by `shl_as_found_refuted`.
-Nothing is left unproved except `x >> constant<k>` with `k` *equal* to the digit count (the result is a
-`static_integer<0>`; covered by the correspondence table only); the part of the property that fails is exactly the
-part the three refutations of open classes exhibit.
+Section 7: `storage_twos_complement`, `storage_builtin`, `storage_multiword_is_C10_format` (the storage rule; rests on
+C10), `binOp_exact_typed`, `div_rounded_typed`, `neg_exact_typed`, `cmp_exact_typed`, `convert_exact_or_signal_typed`
+(every narrowest type and digit count; `convert_negative_to_unsigned_flagged_first` shows the one hypothesis it adds),
+`mixed_addsub_exact`, `mixed_addsub_aligned_exact`, `mixed_mul_exact`, `mixed_div_rounded`, `mixed_cmp_exact` (a
+built-in operand on either side), with `builtin_operand_scaled_in_its_own_type_refuted`,
+`builtin_operand_most_negative_refuted` (two **open** classes found by the typed correspondence lines) and
+`mixed_div_spurious_signal` showing that each hypothesis is needed.
+Left to the correspondence table only: `x >> constant<k>` with `k` *equal* to the digit count (a `static_integer<0>`);
+histories (section 5) and shifts (section 6) over a narrowest type other than `int` — per node they are covered by
+section 7, the induction is stated for `int`; `*` with a built-in operand when one operand has a single digit (the
+overflow layer's digit test is then active; its outcome is in the model and in the table); comparisons of a
+static_number with a built-in operand at a different exponent; operands whose narrowest types differ in *width*
+(not instantiated by the harness).  The part of the property that fails is exactly the part the refutations of the open
+classes exhibit.
 -/
 namespace Cnl.C11
 open Cnl Cnl.Spec Cnl.Static Cnl.Rounding Cnl.Elastic
